@@ -605,6 +605,7 @@ func (g *txnGen) genOp() OperationJ {
 func genTxn(rng *rand.Rand, ts TxnSchema, sh *shadow, nops int) TxnJ {
 	g := &txnGen{rng: rng, ts: ts, sh: sh, named: map[string]string{}, inserted: map[string][]string{}}
 	var t TxnJ
+	var tail []OperationJ
 	// index traffic: values of an index moving between existing rows inside one transaction, and
 	// inserts that claim the index values of an existing row (must be rejected unless that row goes)
 	switch rng.Intn(12) {
@@ -613,6 +614,24 @@ func genTxn(rng *rand.Rand, ts TxnSchema, sh *shadow, nops int) TxnJ {
 	case 1:
 		if op, ok := g.genIndexClaim(); ok {
 			t.Ops = append(t.Ops, op)
+		}
+	case 4, 5, 6:
+		// reference traffic that fails at commit: one of several referrers of a row drops its reference
+		// (the reference bookkeeping of the transaction is computed before the index check), followed by an
+		// insert that claims the index values of an existing row
+		if op, ok := g.genRefDrop(); ok {
+			t.Ops = append(t.Ops, op)
+			if claim, ok := g.genIndexClaim(); ok && rng.Intn(3) != 0 {
+				tail = append(tail, claim)
+			}
+		}
+	case 7, 8:
+		// what Where(m).Update(m) sends: every column of an existing row with its current value, one of them changed
+		if op, ok := g.genFullRowUpdate(); ok {
+			t.Ops = append(t.Ops, op)
+			if rng.Intn(2) == 0 {
+				t.Ops = append(t.Ops, OperationJ{Op: "select", Table: op.Table, Where: op.Where})
+			}
 		}
 	case 2, 3:
 		// a column of an existing row goes back to its default value (by update, or by deleting
@@ -624,6 +643,7 @@ func genTxn(rng *rand.Rand, ts TxnSchema, sh *shadow, nops int) TxnJ {
 	for i := 0; i < nops; i++ {
 		t.Ops = append(t.Ops, g.genOp())
 	}
+	t.Ops = append(t.Ops, tail...)
 	return t
 }
 
@@ -737,4 +757,105 @@ func (g *txnGen) genIndexClaim() (OperationJ, bool) {
 	op := OperationJ{Op: "insert", Table: t.Name, Row: row, UUID: g.sh.fresh()}
 	g.inserted[t.Name] = append(g.inserted[t.Name], op.UUID)
 	return op, true
+}
+
+// genRefDrop: a row referenced from the same column of at least two rows loses one of those references
+// (update of the referrer's column to its value without the target)
+func (g *txnGen) genRefDrop() (OperationJ, bool) {
+	type cand struct {
+		table, col, target string
+		referrers          []string
+	}
+	var cands []cand
+	for _, t := range g.ts.Spec.Tables {
+		for _, c := range t.Cols {
+			if c.RefTable == "" && c.ValRefTable == "" {
+				continue
+			}
+			by := map[string][]string{}
+			for _, u := range g.sh.uuids(t.Name) {
+				seen := map[string]bool{}
+				for _, tg := range colRefTargets(c, g.sh.rows[t.Name][u][c.Name]) {
+					if !seen[tg[1]] {
+						seen[tg[1]] = true
+						by[tg[1]] = append(by[tg[1]], u)
+					}
+				}
+			}
+			var targets []string
+			for tg := range by {
+				targets = append(targets, tg)
+			}
+			sort.Strings(targets)
+			for _, tg := range targets {
+				if len(by[tg]) >= 2 {
+					cands = append(cands, cand{t.Name, c.Name, tg, by[tg]})
+				}
+			}
+		}
+	}
+	if len(cands) == 0 {
+		return OperationJ{}, false
+	}
+	c := cands[g.rng.Intn(len(cands))]
+	who := c.referrers[g.rng.Intn(len(c.referrers))]
+	if g.rng.Intn(2) == 0 {
+		who = c.referrers[0]
+	}
+	cur := g.sh.rows[c.table][who][c.col]
+	var nv *Value
+	switch cur.K {
+	case 'o':
+		nv = VO(nil)
+	case 'S':
+		nv = VS()
+		for _, a := range cur.S {
+			if a.S != c.target {
+				nv.S = append(nv.S, a)
+			}
+		}
+	case 'M':
+		nv = VM()
+		for _, p := range cur.M {
+			if p[0].S != c.target && p[1].S != c.target {
+				nv.M = append(nv.M, p)
+			}
+		}
+	default:
+		return OperationJ{}, false
+	}
+	return OperationJ{Op: "update", Table: c.table, Row: Row{c.col: nativeToOvsValue(nv)}, Where: byUUID(who)}, true
+}
+
+// genFullRowUpdate: an update naming (almost) every column of an existing row with the value it already
+// has, and one or two columns with a new value
+func (g *txnGen) genFullRowUpdate() (OperationJ, bool) {
+	var cands []TableSpec
+	for _, t := range g.ts.Spec.Tables {
+		if len(g.sh.rows[t.Name]) > 0 {
+			cands = append(cands, t)
+		}
+	}
+	if len(cands) == 0 {
+		return OperationJ{}, false
+	}
+	t := cands[g.rng.Intn(len(cands))]
+	us := g.sh.uuids(t.Name)
+	u := us[g.rng.Intn(len(us))]
+	cur := g.sh.rows[t.Name][u]
+	row := Row{}
+	var mutable []ColSpec
+	for _, c := range t.Cols {
+		if v := cur[c.Name]; v != nil && g.rng.Intn(6) != 0 {
+			row[c.Name] = nativeToOvsValue(v)
+		}
+		if !c.Immutable {
+			mutable = append(mutable, c)
+		}
+	}
+	for k := 1 + g.rng.Intn(2); k > 0 && len(mutable) > 0; k-- {
+		c := mutable[g.rng.Intn(len(mutable))]
+		row[c.Name] = nativeToOvsValue(g.genColValue(c))
+	}
+	return OperationJ{Op: "update", Table: t.Name, Row: row, Where: byUUID(u)}, true
 }
